@@ -15,7 +15,7 @@ EXTENDS VIO, FiniteSets
 CONSTANTS Depth,        \* length bound of histories
           KeepHist,     \* TRUE: carry the history (G runs); FALSE: only the last observation (M runs)
           FreeStyle     \* TRUE: connect style chosen freely (simulation); FALSE: derived from the callback
-Evs == {"a", "b"}
+Evs == {"no_on", "b"}      \* (an event name made of the letters of the `on_` prefix: connecting by name strips the PREFIX, not its letters)
 Senders == {"s1", "s2"}
 Fns == {"f1", "f2", "m1"}                 \* m1 is a bound method of the object o1
 Owner(f) == IF f = "m1" THEN "o1" ELSE "none"
